@@ -80,6 +80,16 @@ Definition xmul_fin (a b : xq) : xq :=      (* only the finite case is claimed f
 (* three-way comparison as the integer the code returns *)
 Definition cmpZ (c : comparison) : Z := match c with Lt => -1 | Eq => 0 | Gt => 1 end.
 
+(* the order of the extended rationals as the integer compare() returns (NaN is unordered: 0, as the code documents) *)
+Definition xcmpZ (a b : xq) : Z :=
+  match a, b with
+  | XNaN, _ | _, XNaN => 0
+  | XInf s, XInf t => if Bool.eqb s t then 0 else if s then -1 else 1
+  | XInf s, XFin _ => if s then -1 else 1
+  | XFin _, XInf t => if t then 1 else -1
+  | XFin p, XFin q => cmpZ (Qcompare p q)
+  end.
+
 (* round half to even of a non-negative rational (Python 3 round() on an exactly known value) *)
 Definition q_floor (q : Q) : Z := Qfloor q.
 Definition rne (q : Q) : Z :=
